@@ -30,7 +30,7 @@ def famParse (H : HashFn) (kv : KV) : String × String :=
   -- specification of the header limit (exact-limit lines only): the payload header is refused as
   -- too large exactly when its declared length exceeds MaxAllowedHeaderSize, at every entry point
   let limSpec :=
-    if KV.getD kv "lim" "0" != "1" || ep == "root" || ep == "indexread" || ep == "extract" || ep == "readonly" || ep == "readable" || ep == "readorgen" || ep == "skip-dr" || ep == "next-dr" then "" else
+    if KV.getD kv "lim" "0" != "1" || ep == "root" || ep == "indexread" || ep == "extract" || ep == "readonly" || ep == "readable" || ep == "readorgen" || ep == "skip-dr" || ep == "next-dr" || ep == "readversion" || ep == "indexreader" || ep == "openreader" then "" else
     let hp := if input.take 11 == pragma then leVal ((input.drop 27).take 8) else 0
     match readUvarint (input.drop hp) with
     | .ok (h, _) => if h > o.maxHeader then " _lim=hdr" else " _lim=!hdr"
